@@ -251,9 +251,9 @@ func vfPKIXPem(pub crypto.PublicKey) (string, []byte) {
 	return string(pem.EncodeToMemory(&pem.Block{Type: "PUBLIC KEY", Bytes: der})), der
 }
 
-type vfFakeSTS struct{}
+type vfFakeSTSc20 struct{}
 
-func (vfFakeSTS) RoundTrip(req *http.Request) (*http.Response, error) {
+func (vfFakeSTSc20) RoundTrip(req *http.Request) (*http.Response, error) {
 	body := `<GetCallerIdentityResponse xmlns="https://sts.amazonaws.com/doc/2011-06-15/"><GetCallerIdentityResult>` +
 		`<Arn>arn:aws:sts::123456789012:assumed-role/VerifRole/i-0123456789</Arn><UserId>X:i</UserId><Account>123456789012</Account>` +
 		`</GetCallerIdentityResult></GetCallerIdentityResponse>`
@@ -406,7 +406,7 @@ func TestVerifC20(t *testing.T) {
 		FailureWriter: func(w http.ResponseWriter, r *http.Request, errorString string, code int) {
 			state.writeFailureResponse(w, r, code, errorString)
 		},
-		HttpClient: &http.Client{Transport: vfFakeSTS{}},
+		HttpClient: &http.Client{Transport: vfFakeSTSc20{}},
 		Logger:     logger,
 	})
 	if err != nil {
